@@ -133,8 +133,11 @@ def check_parts(np_, reg, quantity=None, qdims=None, list_entry=False, base=10):
     if quantity is None:
         if raw is None or raw.get("f") or "n" not in raw:
             raise Unjudgeable("no exact raw value")
-        quantity = Fraction(int(raw["n"]), int(raw["d"]))
-        qdims = raw["u"]
+        # raw values are normally in base units; substance replies carry display names there
+        # (`gram / millimeter^3`), so the raw unit map is read like any printed unit
+        rv, rd = unit_product(reg, [(k, int(p)) for k, p in raw["u"].items()])
+        quantity = Fraction(int(raw["n"]), int(raw["d"])) * rv
+        qdims = rd
     units = structured_units(np_)
     uv, ud = unit_product(reg, units)
     f = Fraction(int(np_["factor"])) if np_.get("factor") else Fraction(1)
